@@ -12,14 +12,18 @@ ENTRY = {'coq_dir': 'C05',
          'transport calls, failing accepts). After every event the transport calls, protocol notifications, manager events, return code '
          'and a dump of peer states / pending / counted sets are compared with the extracted Coq model. Non-trivial: trace >= 8 numbers; '
          'distinct (case, trace) pairs are counted.',
- 'level_text': "Proof + translation validation: per-handler theorems about the manager's dial bookkeeping (re-dial is attempted, failure "
-               'reports consume the pending attempt, a failed dial or a limit-rejected outbound connection leaves no dial record, panics '
-               'need contradictory ids) hold for every state and configuration; the history-level ledger (exactly one outcome per attempt, '
-               "no wedged peer at quiescence) is decided by the extracted oracle on the implementation's own traces over generated "
-               'feasible histories; the model is tied to manager/mod.rs step by step.',
- 'level_note': 'Trusted: Coq kernel, extraction, harness + ScriptedTransport hook. One transport (TCP) only; the address book is '
-               "abstracted to 'has an address'; `.await` on full protocol channels inside the DialFailure fan-out is not modelled; the "
-               'inductive ledger proof over all histories is not finished (stated in coq/C05/Properties.v).',
+ 'level_text': 'Proof: the dial ledger is an inductive invariant (LInv) of the manager model over every event history the transport '
+               "contract allows and every limit configuration: every pending attempt is owed an answer by the transport and is its peer's "
+               'dial record, ids are fresh, terminal outputs close an attempt for good; consequences proved for all feasible histories: no '
+               'connection id is named by two terminal outputs, at quiescence every accepted attempt has a terminal output or was '
+               'superseded by a reported connection of the same peer or belongs to the recorded finding (limit-rejected outbound '
+               'connection), and no peer is wedged; plus per-handler theorems (re-dial attempted, failure consumes the attempt, limit '
+               'rejection clears the dial record, panics need contradictory ids). The same ledger is evaluated by the extracted oracle on '
+               "the implementation's own traces; the model is tied to manager/mod.rs step by step.",
+ 'level_note': 'Trusted: Coq kernel, extraction, harness + ScriptedTransport hook. Transport contract `feas` (calls succeed, each is '
+               'answered once unless cancelled, cancel is effective, accept futures succeed) is an assumption validated for TCP by reading '
+               "tcp/mod.rs; one transport (TCP) only; the address book is abstracted to 'has an address' (scores are C10); `.await` on "
+               'full protocol channels inside the DialFailure fan-out is not modelled.',
  'trusted_base': ['transport contract assumed for the feasible stream: open/dial/negotiate calls succeed, each is answered once unless '
                   'cancelled, accept futures succeed (validated for TCP by reading tcp/mod.rs)',
                   'connection ids: inbound ids are drawn from the counter shared with the manager (AllocConn event / '
